@@ -409,6 +409,12 @@ func r063Inheritance(c *an.Ctx) {
 					if id, ok := an.Unparen(fct.Cond).(*ast.Ident); ok && fct.Holds && flagSetUnderNoKind(g, info, id) {
 						facts["#nosecurity"] = true
 					}
+					// or a predicate over the requirements that answers true only under that test
+					if call, ok := an.Unparen(fct.Cond).(*ast.CallExpr); ok && fct.Holds {
+						if h := c.FuncOfObj(an.Callee(info, call)); h != nil && trueOnlyUnderNoKind(h) {
+							facts["#nosecurity"] = true
+						}
+					}
 				}
 			}
 			if os.Getenv("GOACHECK_DEBUG") != "" {
@@ -708,6 +714,50 @@ func r067InheritanceAgreement(c *an.Ctx, rule string) {
 
 // flagSetUnderNoKind: the boolean variable id is assigned true somewhere, and
 // every such assignment is dominated by a successful `<x>.Kind == NoKind` test.
+// trueOnlyUnderNoKind: h returns a boolean, and every `return true` (or return of a flag only set under the
+// test) is dominated by a comparison of a scheme kind with NoKind that holds.
+func trueOnlyUnderNoKind(h *an.Func) bool {
+	info := h.Pkg.TypesInfo
+	if h.Decl.Type.Results == nil || len(h.Decl.Type.Results.List) != 1 {
+		return false
+	}
+	g := an.NewCFG(info, h.Decl.Body)
+	trues := 0
+	for _, r := range g.ReturnLocs() {
+		if r.Idx >= len(r.Block.Nodes) {
+			continue
+		}
+		rs, ok := r.Block.Nodes[r.Idx].(*ast.ReturnStmt)
+		if !ok || len(rs.Results) != 1 {
+			return false
+		}
+		if v, isConst := an.ConstBool(info, rs.Results[0]); isConst {
+			if !v {
+				continue
+			}
+			under := false
+			for _, fct := range g.DominatingFacts(r) {
+				if be, ok := an.Unparen(fct.Cond).(*ast.BinaryExpr); ok && be.Op == token.EQL && fct.Holds {
+					if strings.HasSuffix(types.ExprString(be.Y), "NoKind") || strings.HasSuffix(types.ExprString(be.X), "NoKind") {
+						under = true
+					}
+				}
+			}
+			if !under {
+				return false
+			}
+			trues++
+			continue
+		}
+		if id, ok := an.Unparen(rs.Results[0]).(*ast.Ident); ok && flagSetUnderNoKind(g, info, id) {
+			trues++
+			continue
+		}
+		return false
+	}
+	return trues > 0
+}
+
 func flagSetUnderNoKind(g *an.CFG, info *types.Info, id *ast.Ident) bool {
 	o := info.Uses[id]
 	if o == nil {
